@@ -72,7 +72,7 @@ def tokOK (cfg : LexCfg) : CTok → Bool
   | .bool _ => true
   | .err e => cfg.errors.any (fun p => p.2 = e)
   | .comma => cfg.decimal != ','
-  | .ref sh r => sheetOK sh && refOK r && (sh.isSome || r.absCol || r.absRow)
+  | .ref sh r => sheetOK sh && refOK r
   | .range _ _ _ => false      -- not covered by the theorem (tied by the differential run)
   | .sref _ _ _ => false       -- structured references have no printed form in stringify.rs
   | _ => true
@@ -93,7 +93,11 @@ def badNext (cfg : LexCfg) (t : CTok) (c : Char) : Bool :=
       (c = ':' && isValidColumn (upperStr cfg s))
   | .bool _ => isIdentChar cfg.cc c || c = '!' || c = '$'
   | .spill => errSecond cfg.errors c
-  | .ref _ _ => isDigit c || c = ':'
+  | .ref sh r =>
+    if sh.isNone && !r.absCol && !r.absRow then
+      -- the plain form `A1` is read by the identifier branch
+      isIdentChar cfg.cc c || c = '!' || c = '$' || c = '(' || c = ':'
+    else isDigit c || c = ':'
   | _ => false
 
 def follow (cfg : LexCfg) (t : CTok) (rest : List Char) : Bool :=
